@@ -62,3 +62,12 @@ Lemma non_closed_terminals_spec :
   non_closed_terminals the_grammar =
     [Str "REGEXP1"; Str "DOUBLE_QUOTED_STRING"; Str "SINGLE_QUOTED_STRING"; Str "REGEXP2"; Str "ESCAPED_STRING"].
 Proof. vm_compute. reflexivity. Qed.
+
+(* ---------------------------------------------------------------- the LALR table passes the validator *)
+From MF Require Import Proofs.LRFacts.
+
+Lemma the_grammar_table_ok : table_ok the_grammar = true.
+Proof. vm_compute. reflexivity. Qed.
+
+Lemma the_grammar_types_ok : types_ok the_grammar the_hook = true.
+Proof. vm_compute. reflexivity. Qed.
